@@ -26,6 +26,7 @@ func main() {
 		"extract":   func(out string, _ int64, _ string) error { return extract.Run(cli.Repo, out) },
 		"time":      engtime.Run,
 		"node":      engnode.Run,
+		"net":       engnode.RunNet,
 		"reshare":   engnode.RunReshare,
 		"serve":     engnode.RunServe,
 		"bootstrap": engnode.RunBootstrap,
